@@ -2,7 +2,7 @@
 EXTENDS Dpt, Json, IOUtils, TLC
 Cases == ndJsonDeserialize(IOEnv.TRACE_FILE)
 Ok(c) == CASE c.t = "dec" -> DecodeOk(c) [] c.t = "consumer" -> ConsumerOk(c) [] c.t = "re" -> ReencodeOk(c)
-           [] c.t = "num" -> NumOk(c) [] c.t = "far" -> FarOk(c) [] c.t = "json" -> JsonOk(c) [] OTHER -> FALSE
+           [] c.t = "num" -> NumOk(c) [] c.t = "far" -> FarOk(c) [] c.t = "str" -> StrOk(c) [] c.t = "json" -> JsonOk(c) [] OTHER -> FALSE
 Bad == {i \in 1..Len(Cases) : ~Ok(Cases[i])}
 \* anchors of the reference decoders: DPT 9 examples of the KNX datapoint specification (03/07/02 3.10) and well-known payloads
 \*   0x0C1A = 21.00 (m = 0x41A = 1050, e = 1);  0x8A24 = -30.00 (M = 0x224 - 2048 = -1500, e = 1);  0x7FFF = 670760.96;  0xF800 = -671088.64
